@@ -15,6 +15,8 @@ enum Val {
     Pair(Box<Val>, Box<Val>),
     #[default]
     Unit,
+    /// key-sorted map with integer values (inputs and outputs of the per-key operators)
+    Map(std::collections::BTreeMap<i64, i64>),
 }
 impl std::fmt::Debug for Val {
     fn fmt(&self, f: &mut std::fmt::Formatter<'_>) -> std::fmt::Result {
@@ -22,6 +24,10 @@ impl std::fmt::Debug for Val {
             Val::Int(z) => write!(f, "{z}"),
             Val::Pair(a, b) => write!(f, "({a:?},{b:?})"),
             Val::Unit => write!(f, "()"),
+            Val::Map(m) => {
+                let v: Vec<String> = m.iter().map(|(k, v)| format!("{k}:{v}")).collect();
+                write!(f, "{{{}}}", v.join(","))
+            }
         }
     }
 }
@@ -34,6 +40,13 @@ impl Val {
                 _ => 0,
             },
             Val::Unit => 0,
+            Val::Map(_) => 0,
+        }
+    }
+    fn as_zmap(&self) -> std::collections::BTreeMap<i64, i64> {
+        match self {
+            Val::Map(m) => m.clone(),
+            _ => panic!("harness: not a map value"),
         }
     }
 }
@@ -58,6 +71,7 @@ fn fn_sem(fid: i64, cap: i64, args: &[Val]) -> Val {
         4 => Val::Int(a.max(b)),
         5 => Val::Int(sum.rem_euclid(3)),
         6 => Val::Int(cap),
+        10 => Val::Unit,
         7 => Val::Pair(
             Box::new(args.first().cloned().unwrap_or(Val::Unit)),
             Box::new(args.get(1).cloned().unwrap_or(Val::Unit)),
@@ -212,6 +226,18 @@ impl P {
     fn expect(&mut self, s: &str) {
         let t = self.next();
         assert!(t == s, "parse: expected {s} got {t}");
+    }
+    fn zmap(&mut self) -> std::collections::BTreeMap<i64, i64> {
+        self.expect("{");
+        let mut m = std::collections::BTreeMap::new();
+        loop {
+            let t = self.next();
+            if t == "}" {
+                return m;
+            }
+            let (k, v) = t.split_once(':').expect("parse: map entry");
+            m.insert(k.parse().unwrap(), v.parse().unwrap());
+        }
     }
     fn effect(t: &str) -> Effect {
         let p: Vec<&str> = t.split(':').collect();
@@ -388,6 +414,7 @@ struct Ctx {
     experts: RefCell<std::collections::HashMap<usize, Rc<ExRec>>>,
     dep_slots: RefCell<Vec<Option<usize>>>,
     next_edge: Cell<usize>,
+    next_perkey: Cell<usize>,
     foreign_node: I,
     _foreign_state: IncrState,
     inv_count: Cell<usize>,
@@ -608,6 +635,54 @@ fn expert_remove_slot(e: usize, sl: usize) {
     let Some(pos) = pos else { return };
     let d = rec.deps.borrow_mut().remove(pos);
     rec.weak.remove_dependency(d.dep);
+}
+
+// ---------------------------------------------------------------- per-key operators of incremental-map
+fn to_cutoff(c: &CutoffD) -> Cutoff<Val> {
+    match c {
+        CutoffD::Eq => Cutoff::PartialEq,
+        CutoffD::Never => Cutoff::Never,
+        CutoffD::Always => Cutoff::Always,
+        CutoffD::Fn(cid) | CutoffD::Boxed(cid) => Cutoff::Fn(match cid {
+            0 => cut0,
+            1 => cut1,
+            _ => cut2,
+        }),
+    }
+}
+/// inp.map(to map type).incr_mapi_(user fn).map(back to Val)
+fn perkey_new(state: &WeakState, inp: &I, cutoff: Option<CutoffD>, f: BindFn, ordmap: bool) -> I {
+    use incremental_map::prelude::*;
+    use std::collections::BTreeMap;
+    let c = ctx();
+    let pk = c.next_perkey.get();
+    c.next_perkey.set(pk + 1);
+    let st = state.clone();
+    let (body, r) = f.templates[0].clone();
+    let userfn = move |key: &i64, input: Incr<Val>| -> Incr<Val> {
+        user_call();
+        ev(format!("perkeyfn {pk} {key}"));
+        let f2 = subst_bindfn(0, &[input], &BindFn { effs: vec![], templates: vec![(body.clone(), r.clone())] });
+        let (b2, r2) = &f2.templates[0];
+        instantiate(&st, &Val::Int(*key), b2, r2)
+    };
+    if !ordmap {
+        let conv_in: Incr<BTreeMap<i64, Val>> =
+            inp.map(|v: &Val| v.as_zmap().iter().map(|(k, v)| (*k, Val::Int(*v))).collect());
+        let out = match &cutoff {
+            None => conv_in.incr_mapi_(userfn),
+            Some(cd) => conv_in.incr_mapi_cutoff(userfn, to_cutoff(cd)),
+        };
+        out.map(|m| Val::Map(m.iter().map(|(k, v)| (*k, v.as_int())).collect()))
+    } else {
+        let conv_in: Incr<im_rc::OrdMap<i64, Val>> =
+            inp.map(|v: &Val| v.as_zmap().iter().map(|(k, v)| (*k, Val::Int(*v))).collect());
+        let out = match &cutoff {
+            None => conv_in.incr_mapi_(userfn),
+            Some(cd) => conv_in.incr_mapi_cutoff(userfn, to_cutoff(cd)),
+        };
+        out.map(|m| Val::Map(m.iter().map(|(k, v)| (*k, v.as_int())).collect()))
+    }
 }
 
 fn cut0(a: &Val, b: &Val) -> bool {
@@ -921,6 +996,7 @@ impl Interp {
             experts: RefCell::new(Default::default()),
             dep_slots: RefCell::new(vec![]),
             next_edge: Cell::new(0),
+            next_perkey: Cell::new(0),
             foreign_node,
             _foreign_state: foreign,
             inv_count: Cell::new(0),
@@ -949,6 +1025,29 @@ impl Interp {
                 let v = self.state.var(Val::Int(p.int()));
                 let n = v.watch();
                 self.ctx.vars.borrow_mut().push(Some(v));
+                self.push(n)
+            }
+            "varmap" => {
+                let m = p.zmap();
+                let v = self.state.var(Val::Map(m));
+                let n = v.watch();
+                self.ctx.vars.borrow_mut().push(Some(v));
+                self.push(n)
+            }
+            "setmap" => {
+                let x = p.nat();
+                let m = p.zmap();
+                let var = self.ctx.vars.borrow()[x].clone().expect("harness: var handle dropped");
+                var.set(Val::Map(m));
+                "ok".into()
+            }
+            "permapi" | "permapiom" => {
+                let inp = self.h(p.nat());
+                let ct = p.next();
+                let cutoff = if ct == "-" { None } else { Some(P::cutoff(&ct)) };
+                let f = p.bindfn();
+                let f = handles_bindfn(&self.ctx.hnodes.borrow(), &f);
+                let n = perkey_new(&self.ctx.state, &inp, cutoff, f, line.starts_with("permapiom"));
                 self.push(n)
             }
             "pair" => {
